@@ -2,7 +2,7 @@
 #include "w2c2_base.h"
 #include "wasm_int.h"
 #include "trapstub.h"
-#include "/verif/.work_wt/C17-28272/memrec/memrec.h"
+#include "/verif/.work_wt/C17-17254/memrec/memrec.h"
 #include "c17wn.c"
 #include "wasm_int.h"
 #include "libm_markers.h"
